@@ -14,6 +14,7 @@ from __future__ import annotations
 import copy
 import itertools
 import os
+import random
 import re
 
 from vf.gen import hits as H
@@ -132,7 +133,46 @@ def wrap_merge_layout(rng):
             "perm_seed": rng.randrange(1 << 30), "shape": "last-stretch-joins-the-area-over-the-origin"}
 
 
+_LAYOUT_TURNS = itertools.count()
+
+
+def promotion_extras_layout(turn):
+    """ a chemical hybrid (two protoclusters defined by one gene) and two further protoclusters with identical
+        coordinates, other cores and other defining genes, whose cores overlap the hybrid's: the interleaved group of
+        all four spans exactly the hybrid's coordinates, so the two become its extras and each gets a single
+        candidate - two candidates with identical coordinates. Built from the turn number (no draw from the stream). """
+    rng = random.Random(turn * 7919 + 17)
+    n_genes, glen, step = 12, 60, 100
+    length = n_genes * step
+    at = rng.choice([3, 4, 5, 6, 7])
+    genes = [{"name": f"g{i}", "loc": {"parts": [[i * step + 10, i * step + 10 + glen]], "strand": rng.choice([1, -1])},
+              "core": []} for i in range(n_genes)]
+    products = list(PRODUCTS)
+    rng.shuffle(products)
+    mid = at * step + 10
+    hybrid_extent = [[mid - 2 * step, mid + glen + 2 * step]]
+    extra_extent = [[mid - 2 * step, mid + glen + step]]
+    plan = [(at, 1, [[mid, mid + glen]], hybrid_extent, at), (at, 1, [[mid, mid + glen]], hybrid_extent, at),
+            (at - 1, 2, [[mid - step, mid + glen]], extra_extent, at - 1), (at, 2, [[mid, mid + glen + step]], extra_extent, at + 1)]
+    rng.shuffle(plan)
+    protos = []
+    for first, ncore, core, extent, definer in plan:
+        product = products.pop()
+        genes[definer]["core"].append(product)
+        protos.append({"first": first, "ncore": ncore, "nb": 2, "product": product, "core": core, "extent": extent})
+    return {"kind": "layout", "L": length, "circular": rng.random() < 0.5, "genes": genes, "protoclusters": protos,
+            "perm_seed": rng.randrange(1 << 30), "shape": "two-extras-of-a-promotion-with-identical-coordinates"}
+
+
 def tie_layout(rng):
+    """ every fifth layout is the directed one; the layout drawn in its place is drawn all the same, so that the
+        stream of the others stays as it was """
+    drawn = _drawn_layout(rng)
+    turn = next(_LAYOUT_TURNS)
+    return promotion_extras_layout(turn) if turn % 5 == 2 else drawn
+
+
+def _drawn_layout(rng):
     if rng.random() < 0.2:
         return wrap_merge_layout(rng)
     circular = rng.random() < 0.5
